@@ -80,16 +80,17 @@ func c02(c *core.Check) {
 		}
 	})
 	agg.flush(c, map[string]string{
-		"read-typestate": "field loop consumes exactly one value per header; StructBegin..StructEnd..return nil",
-		"read-guard":     "reader guarded by the spec wire type of its field; else arm skips; default arm consumes",
-		"read-required":  "isset set after the reader; tested before return nil",
-		"write-typestate": "StructBegin, fields in order, [unknown], FieldStop, StructEnd, return nil",
-		"write-union-count": "CountSetFields != 1 error dominates WriteStructBegin",
-		"writefield-frame": "FieldBegin(name, spec const, id) .. value events of the shape .. FieldEnd; only optional fields may skip",
-		"readfield-value":  "value events equal the shape's prescription; result assigned to the field",
-		"container-header": "element wire types per spec; count is len(target)",
+		"read-typestate":          "field loop consumes exactly one value per header; StructBegin..StructEnd..return nil",
+		"read-guard":              "reader guarded by the spec wire type of its field; else arm skips; default arm consumes",
+		"read-required":           "isset set after the reader; tested before return nil",
+		"write-typestate":         "StructBegin, fields in order, [unknown], FieldStop, StructEnd, return nil",
+		"write-union-count":       "CountSetFields != 1 error dominates WriteStructBegin",
+		"writefield-frame":        "FieldBegin(name, spec const, id) .. value events of the shape .. FieldEnd; only optional fields may skip",
+		"readfield-value":         "value events equal the shape's prescription; result assigned to the field",
+		"container-header":        "element wire types per spec; count is len(target)",
+		"read-struct-initialised": "struct elements read into zero storage get InitDefault() before Read",
 	})
-	for _, k := range []string{"read-typestate", "read-guard", "write-typestate", "writefield-frame", "readfield-value"} {
+	for _, k := range []string{"read-typestate", "read-guard", "write-typestate", "writefield-frame", "readfield-value", "read-struct-initialised"} {
 		c.Min(k, 1)
 	}
 	// (5) flags
@@ -595,6 +596,59 @@ func c02readField(agg *aggregate, r *rendered) {
 	for _, v := range rules.RunTypestate(g, a, protoEvents) {
 		agg.fail("readfield-value", k, fmt.Sprintf("under [%s] shape %s: %s", r.R.Valuation, f.Shape, v))
 	}
+	// a struct element that is read into freshly allocated zero storage (`x := &values[i]`) must be given its declared
+	// defaults before Read fills in what is on the wire: fields absent from the data would otherwise hold zero instead of the
+	// default (and optional ones would report themselves set). Elements made by NewT() already carry the defaults.
+	ast.Inspect(fd.Body, func(nd ast.Node) bool {
+		var list []ast.Stmt
+		switch b := nd.(type) {
+		case *ast.BlockStmt:
+			list = b.List
+		case *ast.CaseClause:
+			list = b.Body
+		default:
+			return true
+		}
+		for i, s := range list {
+			as, ok := s.(*ast.AssignStmt)
+			if !ok || as.Tok != token.DEFINE || len(as.Lhs) != 1 || len(as.Rhs) != 1 {
+				continue
+			}
+			id, ok := as.Lhs[0].(*ast.Ident)
+			if !ok {
+				continue
+			}
+			ue, ok := as.Rhs[0].(*ast.UnaryExpr)
+			if !ok || ue.Op != token.AND {
+				continue
+			}
+			if _, ok := ue.X.(*ast.IndexExpr); !ok {
+				continue
+			}
+			reads, inits := false, false
+			for _, later := range list[i+1:] {
+				for _, call := range rules.NodeCalls(later) {
+					if se, ok := call.Fun.(*ast.SelectorExpr); ok && rules.ExprText(se.X) == id.Name {
+						switch se.Sel.Name {
+						case "InitDefault":
+							if !reads {
+								inits = true
+							}
+						case "Read":
+							reads = true
+						}
+					}
+				}
+			}
+			if reads {
+				agg.check("read-struct-initialised", k)
+				if !inits {
+					agg.fail("read-struct-initialised", k, fmt.Sprintf("under [%s] shape %s: %s is read into zero storage (%s) without InitDefault(): fields absent on the wire end up zero instead of their declared default", r.R.Valuation, f.Shape, id.Name, rules.ExprText(as.Rhs[0])))
+				}
+			}
+		}
+		return true
+	})
 	// the value read is stored into the field
 	assigned := false
 	ast.Inspect(fd.Body, func(nd ast.Node) bool {
